@@ -1,5 +1,7 @@
 """C19 — index building blocks behave as multimaps through insert, merge and freeze (model-based monitor)."""
-from vlib import core, libmon
+import os
+
+from vlib import core, libmon, sanitize
 
 LEVEL = 'exploration'
 
@@ -25,6 +27,23 @@ def run(ctx, only=None):
             ctx.sample(r)
             if r['concurrent_rounds'] and r['insert_if_absent_lost_races'] == 0:
                 ctx.inconc('no insert_if_not_present race was lost by any worker: the racy window was not exercised')
+    if ctx.tier == 'thorough' or os.environ.get('VERIF_SAN'):
+        # TSan on the concurrent rounds, perturbation disarmed
+        trecs, st = sanitize.libmon_san(ctx, 'tsan', 'c19_index', ['--conc_only=1', '--noperturb=1', '--rounds=150', '--seed=%d' % ctx.seed])
+        ctx.cov['tsan'] = dict(st, concurrent_rounds=sum(r.get('concurrent_rounds', 0) for r in trecs))
+        recs += [r for r in trecs if r.get('violation')]
+        if sanitize.statics_are_write_only():
+            ctx.inconc('a suppressed statistics static is read somewhere')
+        # Miri (tree borrows): _yield_write_shard, data_ptr() reads of frozen shards, DashMapViewParIter; tiny sizes, 3 threads
+        mrecs, ub = sanitize.miri_libmon(ctx, 'c19_index', ['--len=2', '--random=2', '--rounds=2', '--maxthreads=3', '--seed=%d' % ctx.seed], timeout=3000)
+        ctx.cov['miri'] = {'sequences': sum(r.get('sequences', 0) for r in mrecs), 'ub_report': bool(ub), 'flags': sanitize.MIRI_FLAGS}
+        recs += [r for r in mrecs if r.get('violation')]
+        if ub == 'timeout' or (not ub and not any(r.get('done') for r in mrecs)):
+            ctx.inconc('Miri pass did not finish')
+        elif ub and '/repo/' in ub:
+            ctx.violation('miri_ub', {'case': 'miri', 'report': ub.split('\n')[-50:], 'summary': 'Miri: undefined behaviour in the index types'}, {'kind': 'miri_ub'})
+        elif ub:
+            ctx.inconc('Miri error without a /repo frame: %s' % ub[-300:])
     for v in [r for r in recs if r.get('violation')]:
         ctx.violation('idx_%s' % v['what'], {'case': v['what'], 'witness': v['witness'], 'summary': '%s: %s' % (v['what'], v['witness'][:300])}, {'what': v['what']})
 
